@@ -3,10 +3,12 @@
 # 1. in the sub-agent's scratch worktree /tmp/wt-<ID>: tests pass with the change, the
 #    demonstration fails with it and passes without it;
 # 2. apply the patch to /repo, run the given checks (default: the property's own), undo.
+# ROUND=2 tools/seed_eval.sh <ID> ...  uses /tmp/wt2-<ID>, /tmp/seed2-<ID> and seeded/<ID>b
 ID="$1"; shift
 CHECKS="${@:-$ID}"
-WT=/tmp/wt-$ID; SEED=/tmp/seed-$ID
-OUT=/verif/seeded/$ID
+R="${ROUND:-}"; SUF=""; [ "$R" = "2" ] && SUF="b"; [ "$R" = "3" ] && SUF="c"
+WT=/tmp/wt$R-$ID; SEED=/tmp/seed$R-$ID
+OUT=/verif/seeded/$ID$SUF
 mkdir -p "$OUT"
 cp "$SEED/patch.diff" "$OUT/patch.diff" 2>/dev/null || git -C "$WT" diff > "$OUT/patch.diff"
 rm -rf "$OUT/demo"; cp -r "$SEED/demo" "$OUT/demo" 2>/dev/null
@@ -15,11 +17,11 @@ echo "== tests with the change"
 ( cd "$WT" && cargo test --workspace --offline 2>&1 | grep -E "test result|FAILED" | awk '{p+=$4; f+=$6} END {print "passed="p" failed="f}' )
 ( cd "$WT" && git checkout -q -- . && git apply "$OUT/patch.diff" && cargo build --workspace --offline -q 2>/dev/null )
 echo "== demo with the change (expect non-zero)"
-( cd "$SEED/demo" && timeout 300 bash ./run.sh >/tmp/seed-$ID-with.log 2>&1; echo "exit=$?" )
+( cd "$SEED/demo" && timeout 300 bash ./run.sh >/tmp/seed$R-$ID-with.log 2>&1; echo "exit=$?" )
 # (no `git stash`: the stash is shared by all worktrees of a repository)
 ( cd "$WT" && git checkout -q -- . && cargo build --workspace --offline -q 2>/dev/null )
 echo "== demo without the change (expect zero)"
-( cd "$SEED/demo" && timeout 300 bash ./run.sh >/tmp/seed-$ID-without.log 2>&1; echo "exit=$?" )
+( cd "$SEED/demo" && timeout 300 bash ./run.sh >/tmp/seed$R-$ID-without.log 2>&1; echo "exit=$?" )
 ( cd "$WT" && git apply "$OUT/patch.diff" && cargo build --workspace --offline -q 2>/dev/null )
 echo "== checks against the change (evidence files of the unchanged tree are put back afterwards)"
 SAVED=$(mktemp -d); cp -r /verif/evidence/. "$SAVED"/
